@@ -165,7 +165,39 @@ impl Buildpack for Bp {
     }
 }
 
+/// In-process mode: several programmatic detect / build invocations in ONE process (libcnb exposes the two entry points for
+/// that), each with its own environment, working directory, arguments and script. Results go to the file named per invocation.
+fn inproc(path: &str) {
+    let plan: Value = serde_json::from_slice(&std::fs::read(path).expect("inproc file")).expect("inproc json");
+    for inv in jarr(&plan, "invocations") {
+        for k in jarr(inv, "unset") {
+            unsafe { std::env::remove_var(k.as_str().unwrap()) };
+        }
+        for kv in jarr(inv, "env") {
+            let kv = kv.as_array().unwrap();
+            unsafe { std::env::set_var(kv[0].as_str().unwrap(), kv[1].as_str().unwrap()) };
+        }
+        std::env::set_current_dir(jstr(inv, "cwd")).expect("chdir");
+        let bp = Bp { script: inv["script"].clone() };
+        let args: Vec<std::path::PathBuf> = jarr(inv, "args").iter().map(|a| std::path::PathBuf::from(a.as_str().unwrap())).collect();
+        let res = if jstr(inv, "phase") == "detect" {
+            libcnb::libcnb_runtime_detect(&bp, libcnb::DetectArgs { platform_dir_path: args[0].clone(), build_plan_path: args[1].clone() })
+        } else {
+            libcnb::libcnb_runtime_build(&bp, libcnb::BuildArgs { layers_dir_path: args[0].clone(), platform_dir_path: args[1].clone(), buildpack_plan_path: args[2].clone() })
+        };
+        let out = match res {
+            Ok(code) => json!({"code": code}),
+            Err(e) => json!({"err": format!("{e:?}").chars().take(300).collect::<String>()}),
+        };
+        std::fs::write(jstr(inv, "result"), serde_json::to_vec(&out).unwrap()).expect("result file");
+    }
+}
+
 fn main() {
+    if let Ok(p) = std::env::var("VPBP_INPROC") {
+        inproc(&p);
+        return;
+    }
     let script: Value = std::env::var("VPBP_SCRIPT").ok().and_then(|p| std::fs::read(p).ok()).and_then(|b| serde_json::from_slice(&b).ok()).unwrap_or(json!({}));
     libcnb::libcnb_runtime(&Bp { script });
 }
